@@ -17,3 +17,13 @@ claim("C01",
       "Trusts rustc MIR + the fact extractor; hyper invoking the service fn per request; kernel attribution (C06) and "
       "authorize() semantics (C02/C03) are separate properties; TCP handshake at accept time is not 'payload'.",
       "DESIGN.md §5 C01")
+
+claim("C03",
+      "MIR guard-first dominance + path-predicate dispatch tables + constant agreement",
+      "Decides, for every rule set / mode / URL at once, that WireServer and HostGAPlugin authorizers cannot produce a "
+      "non-Forbidden result nor consult the rules without crossing the runAsElevated=true edge, that the self-destination "
+      "authorizer is constant Forbidden, and that the (ip,port)->authorizer/rule-getter dispatch tables and the "
+      "listener/redirector port constants agree. The rule-set quantifier is discharged because the rules are provably not "
+      "read before the elevation test.",
+      "Trusts rustc MIR + extractor; that runAsElevated reflects the caller is C06; Forbidden => 403/no relay is C01.",
+      "DESIGN.md §5 C03")
